@@ -54,8 +54,40 @@ def _has_quant(t):
     return any(x.op in ("forall", "exists") for x, _ in smt.subterms(t))
 
 
-def vc_text(engine, ob, defs=None, fuel=None, get_values=(), nl="exact", axioms=True, seq="real", focus=False):
+def _slice_keep(ob, rounds=2, hub=0.3):
+    """Relevance slice of the hypotheses (dropping hypotheses is sound): constants that occur in more than `hub` of the hypotheses are
+    ignored; a hypothesis is kept when it shares another constant with the goal, transitively for `rounds` rounds, or when it has none."""
+    from . import smt
+
+    cs = [set(smt.free_consts(h)) for h in ob.hyps]
+    n = max(1, len(cs))
+    freq = {}
+    for c in cs:
+        for x in c:
+            freq[x] = freq.get(x, 0) + 1
+    hubs = {x for x, k in freq.items() if k > hub * n and n > 20}
+    rare = [c - hubs for c in cs]
+    seen = set(smt.free_consts(ob.goal)) - hubs
+    kept = [not r for r in rare]
+    for _ in range(rounds):
+        grew = False
+        for i, r in enumerate(rare):
+            if not kept[i] and r & seen:
+                kept[i] = True
+                grew = True
+        for i, r in enumerate(rare):
+            if kept[i]:
+                seen |= r
+        if not grew:
+            break
+    ids = {id(h) for h, k in zip(ob.hyps, kept) if k}
+    return lambda h: id(h) in ids
+
+
+def vc_text(engine, ob, defs=None, fuel=None, get_values=(), nl="exact", axioms=True, seq="real", focus=False, sliced=False):
     keep = None
+    if sliced:
+        keep = _slice_keep(ob)
     if focus:
         # "focus": of the quantified hypotheses only preconditions and ghost cuts are kept (the cuts summarise callee
         # postconditions and loop invariants); dropping hypotheses is sound
@@ -69,6 +101,8 @@ def vc_text(engine, ob, defs=None, fuel=None, get_values=(), nl="exact", axioms=
 # from any of them proves the obligation; only the unweakened VC ("full") is ever used to refute.
 VARIANTS = [
     # label, vc_text keywords, solver, CPU seconds; ordered by how many obligations each stage closed per second in practice
+    ("sliced hypotheses, ground-defs", dict(defs="ground", fuel=None, sliced=True), "z3", 2),
+    ("sliced hypotheses, light axioms", dict(axioms="light", sliced=True), "z3", 3),
     ("ground-defs", dict(defs="ground", fuel=None), "z3", 3),
     ("light axioms", dict(axioms="light"), "z3", 5),
     ("light axioms, ground-defs, products abstracted", dict(axioms="light", defs="ground", fuel=None, nl="abstract"), "z3", 6),
